@@ -132,7 +132,7 @@ def sweep_plan(tier):
         if CONTENTS[cid].get("steps"):
             # seconds per analysis: only a handful of faulted variants
             cases.append({"content": cid, "lexer": lexer, "kind": "misc"})
-            cases.append({"content": cid, "lexer": lexer, "kind": "torn_prefix", "mode": "boundaries", "cap": 8 if tier == "quick" else 40})
+            cases.append({"content": cid, "lexer": lexer, "kind": "torn_prefix", "mode": "boundaries", "cap": 4 if tier == "quick" else 40})
             continue
         if tier == "quick":
             # token-boundary stratum, one case per content for both byte kinds
@@ -165,7 +165,16 @@ def sweep_plan(tier):
                     cases.append({"content": cid, "lexer": lexer, "kind": kind, "mode": "boundaries", "cap": 400})
     # interleave languages, so that a time-boxed prefix of the plan covers all seven
     cases.sort(key=lambda c: (c["content"].split(".", 1)[1], c["kind"], c["content"].split(".", 1)[0], c["lexer"], c.get("part", 0)))
-    return cases
+    # the few expensive cases first and far apart, so that they start early and never share a batch
+    heavy = [c for c in cases if CONTENTS[c["content"]].get("steps")]
+    rest = [c for c in cases if not CONTENTS[c["content"]].get("steps")]
+    gap = max(1, len(rest) // max(1, len(heavy)) // 3)
+    out = []
+    for j, h in enumerate(heavy):
+        out.append(h)
+        out.extend(rest[j * gap:(j + 1) * gap])
+    out.extend(rest[len(heavy) * gap:])
+    return out
 
 
 _PLAN = {}
@@ -193,7 +202,8 @@ def gen_world(i, R, rng, sw):
     lang = rng.choice(LANGS)
     cid = rng.choice(G.ids_for(lang))
     heavy = [h for h in G.HEAVY if h.startswith(lang + ".")]
-    if heavy and rng.random() < 0.08:
+    is_heavy = bool(heavy) and rng.random() < 0.02
+    if is_heavy:
         cid = rng.choice(heavy)          # ~1000 nested function definitions: seconds per analysis
     d = rng.choice(["", "src", "lib/in/ner", "src/deep"])
     target = (d + "/" if d else "") + "victim" + EXT[lang]
@@ -201,6 +211,7 @@ def gen_world(i, R, rng, sw):
         target = "victim2" + EXT[lang]
     ops.append({"op": "write", "path": target, "content": cid})
     n = len(CONTENTS[cid]["bytes"])
+    is_heavy = is_heavy or n > 16384      # > 64 KiB texts: up to 12 s per process once re-encoded
     kind = rng.choice(WORLD_FAULTS)
     if kind in ("torn_prefix", "lost_head", "zero_tail"):
         arg = rng.randrange(0, n + 1) if n else 0
@@ -243,7 +254,7 @@ def gen_world(i, R, rng, sw):
         checks.append({"args": [target.split("/", 1)[1]], "cwd": "sub:" + top})
         checks.append({"args": ["."], "cwd": "sub:" + top})
         checks.append({"args": [".."], "cwd": "sub:" + top})
-    for c in rng.sample(checks, rng.randint(4, len(checks))):
+    for c in rng.sample(checks, rng.randint(2, 3) if is_heavy else rng.randint(4, len(checks))):
         ops.append(dict(c, op="check", quiet=rng.random() < 0.3, nonce=G.nonce(rng)))
     return {"property": "C03", "workload": "C03", "seed": R, "swarm": swarm, "ops": ops}
 
